@@ -1,6 +1,7 @@
 """C14 -- an expression needs exactly the coordinates of the variables it mentions."""
 from __future__ import annotations
 import itertools
+import math
 from ..model import load_model
 from ..harness import build, cref, run_paths, exc_name, exc_origin
 from ..evalengine import pmap
@@ -147,6 +148,11 @@ def check(rep):
         # all variables supplied, with and without extra coordinates
         for extra in ({}, {"extra1": 7}, {"extra1": 7, "extra2": -1, "unused": 0}):
             cases.append(("at", t, {**full, **extra}, None, "no-CoordinateMissing"))
+        # a supplied coordinate is supplied whatever its value: falsy, signed zero, infinite, not-a-number
+        # (candidates for an "absent" sentinel)
+        for special in (0, 0.0, -0.0, False, math.nan, -1, 1e-320):
+            if vs:
+                cases.append(("at", t, {**full, vs[0]: special, "extra1": special}, None, "never-CoordinateMissing"))
         # every proper subset of the variables: evaluation must not return a number
         for k in range(len(vs)):
             for sub in itertools.combinations(vs, k):
@@ -200,8 +206,9 @@ def check(rep):
                                   f"{desc}: recorded variable names {r.get('value') or r.get('exc')} but the expression "
                                   f"mentions {want}", witness_class=f"varset {t[0]}")
                     ok = False
-            elif want == "no-CoordinateMissing":
-                if r["outcome"] == "raise" and r["exc"] not in ("DomainError",):
+            elif want in ("no-CoordinateMissing", "never-CoordinateMissing"):
+                if r["outcome"] == "raise" and (r["exc"] == "CoordinateMissing" if want == "never-CoordinateMissing"
+                                                else r["exc"] not in ("DomainError",)):
                     rep.violation(rule, construct, r.get("origin", ""),
                                   f"{desc}" + (f" via {extra[0]} w.r.t. {extra[1]}" if kind == "route" else "")
                                   + f": every occurring variable is supplied but {r['exc']} was raised",
